@@ -673,7 +673,7 @@ def alternatives_with_facts(F, X, e, depth=3, keep=(), with_cmp=False):
 PAYLOAD_VARIANTS = {"Ok": ("Ok",), "Some": ("Some",), "Continue": ("Ok", "Some"), "Ready": ("Ready",), "Err": ("Err",)}
 
 
-def def_alternatives(F, X, body, op, depth=4, want=None, keep=(), _seen=None, _file=None):
+def def_alternatives(F, X, body, op, depth=4, want=None, keep=(), _seen=None, _file=None, pathwise=False):
     """definition-site view of a value: [(expr, variant facts, comparison facts, where)] - one entry per *assignment* that
     can produce the value of operand `op` (not per distinct expression: two arms assigning the same expression stay two
     entries, each with the facts of its arm).  Follows moves/copies, the payload projections `(x as Ok).0`, `x?`, and
@@ -685,6 +685,18 @@ def def_alternatives(F, X, body, op, depth=4, want=None, keep=(), _seen=None, _f
 
     def facts(b, bb):
         return ([(fe, t) for fe, t, _c in lib.variant_facts(b, X, bb)], [(x, o, y) for x, o, y, _bb in lib.order_facts(b, X, bb)])
+
+    def facts_list(b, bb):
+        """dominance facts, or (pathwise) one fact set per acyclic path to bb"""
+        if not pathwise:
+            return [facts(b, bb)]
+        paths = lib.path_conditions(b, bb)
+        if not paths:
+            return [facts(b, bb)]
+        outp = []
+        for conds in paths:
+            outp.append(([(fe, t) for fe, t, _c in lib.variant_facts(b, X, bb, conds=conds)], [(x, o, y) for x, o, y, _bb in lib.order_facts(b, X, bb, conds=conds)]))
+        return outp
 
     def opaque(e, b, bb):
         vf, cf = facts(b, bb) if bb is not None else ([], [])
@@ -701,50 +713,52 @@ def def_alternatives(F, X, body, op, depth=4, want=None, keep=(), _seen=None, _f
     _seen = _seen | {key}
     if projs:
         if len(projs) == 2 and projs[0]["k"] == "downcast" and projs[1]["k"] == "field" and projs[1]["n"] == "0" and projs[0]["v"] in PAYLOAD_VARIANTS:
-            return def_alternatives(F, X, body, {"k": "move", "pl": {"l": l, "p": []}}, depth, PAYLOAD_VARIANTS[projs[0]["v"]], keep, _seen, _file)
+            return def_alternatives(F, X, body, {"k": "move", "pl": {"l": l, "p": []}}, depth, PAYLOAD_VARIANTS[projs[0]["v"]], keep, _seen, _file, pathwise)
         return opaque(X.operand(body, op), body, None)
     if 1 <= l <= body.arg_count:
         return opaque(X.operand(body, op), body, None)
-    for (bi, si, proj, kind, payload, sp) in body.defs.get(l, []):
-        if proj and not all(p["k"] == "deref" for p in proj):
-            continue
-        vf0, cf0 = facts(body, bi)
+    def _def_one(bi, kind, payload, sp, vf0, cf0):
         if kind == "rv":
             rv = payload
             if rv["k"] == "use" and rv["op"]["k"] in ("copy", "move"):
-                for e, vf, cf, wh in def_alternatives(F, X, body, rv["op"], depth, want, keep, _seen, _file):
+                for e, vf, cf, wh in def_alternatives(F, X, body, rv["op"], depth, want, keep, _seen, _file, pathwise):
                     out.append((e, vf0 + vf, cf0 + cf, wh or (body.cdef, bi)))
-                continue
+                return
             if rv["k"] == "agg" and rv.get("ak") == "adt" and want is not None and rv.get("variant") in ("Ok", "Some", "Err", "None", "Ready", "Pending"):
                 if rv["variant"] in want and rv["ops"]:
-                    for e, vf, cf, wh in def_alternatives(F, X, body, rv["ops"][0], depth, None, keep, _seen, _file):
+                    for e, vf, cf, wh in def_alternatives(F, X, body, rv["ops"][0], depth, None, keep, _seen, _file, pathwise):
                         out.append((e, vf0 + vf, cf0 + cf, (body.cdef, bi)))
-                continue
+                return
             e = strip(X.rvalue(body, rv, (body.cdef, bi, loc(sp)), 0))
             out.append((e if want is None else ("field", "0", "", want[0], e), vf0, cf0, (body.cdef, bi)))
         elif kind == "call":
             c = Call(body, bi, payload)
             name = c.resolved or c.name
             if c.name == "std::ops::FromResidual::from_residual" and want is not None and set(want) & {"Ok", "Some"}:
-                continue                     # the residual of `?`: an Err/None, it carries no payload of the wanted kind
+                return                     # the residual of `?`: an Err/None, it carries no payload of the wanted kind
             if c.name == "std::ops::Try::branch" and c.args and want is not None:
-                for e, vf, cf, wh in def_alternatives(F, X, body, c.args[0], depth, ("Ok", "Some"), keep, _seen, _file):
+                for e, vf, cf, wh in def_alternatives(F, X, body, c.args[0], depth, ("Ok", "Some"), keep, _seen, _file, pathwise):
                     out.append((e, vf0 + vf, cf0 + cf, wh))
-                continue
+                return
             cb = F.by_cdef.get(name)
             fi = F.fns.get(name)
             kept = keep(name) if callable(keep) else (name in keep)
             if cb is not None and cb.kind in ("Fn", "AssocFn") and not derive_like(cb) and not (fi and fi.get("async")) and not kept and depth > 0 \
                     and cb.span.get("f") == _file and not name.startswith("<"):
                 args = tuple(strip(X.operand(body, a)) for a in c.args)
-                for e, vf, cf, wh in def_alternatives(F, X, cb, {"k": "move", "pl": {"l": 0, "p": []}}, depth - 1, want, keep, _seen, _file):
+                for e, vf, cf, wh in def_alternatives(F, X, cb, {"k": "move", "pl": {"l": 0, "p": []}}, depth - 1, want, keep, _seen, _file, pathwise):
                     s1 = lambda x: strip(subst_params(x, cb.cdef, args))   # noqa
                     out.append((s1(e), vf0 + [(s1(fe), t) for fe, t in vf], cf0 + [(s1(x), o, s1(y)) for x, o, y in cf], wh))
-                continue
+                return
             e = strip(X.call(body, bi, payload, 0))
             out.append((e if want is None else ("field", "0", "", want[0], e), vf0, cf0, (body.cdef, bi)))
         else:
             out.append((("resume",), vf0, cf0, (body.cdef, bi)))
+    for (bi, si, proj, kind, payload, sp) in body.defs.get(l, []):
+        if proj and not all(p["k"] == "deref" for p in proj):
+            continue
+        for vf0, cf0 in facts_list(body, bi):
+            _def_one(bi, kind, payload, sp, vf0, cf0)
     return out
 
 
